@@ -47,10 +47,11 @@ class RefError(Exception):
 # ---------------------------------------------------------------------------------------------------
 # 1a. topologies
 def topo_ports(topo):
-    """topo = {"devices": [names], "links": [[a, b, k, crossed], ...]}
+    """topo = {"devices": [names], "links": [[a, b, k, crossed], ...], "base": {name: first port number} (optional)}
     -> (ifaces, conns): ifaces[dev] = [(port, nbr|None, nbr_port|None)] in interface-list order (lo0 first);
     conns[(a, b)] = [(a_port, b_port)] in a's interface order"""
-    counter = {d: 0 for d in topo["devices"]}
+    base = topo.get("base") or {}            # first port number per device: the two ends of a link name their ports differently
+    counter = {d: int(base.get(d, 0)) for d in topo["devices"]}
     ifaces = {d: [("lo0", None, None)] for d in topo["devices"]}
     for a, b, k, crossed in topo["links"]:
         ap = ["if%d" % (counter[a] + i) for i in range(k)]
@@ -183,17 +184,37 @@ def _common_attrs(t, left, right, sess, ln, rn):
             right["mtu"] = val
 
 
-def eval_pair_handler(kind, t, L, R, pairs):
+def _pnum(port):
+    return int(port[2:])
+
+
+def eval_pair_handler(kind, t, L, R, pairs, acp=None):
     """kind direct|indirect; L, R captured variables of the left/right name; pairs = sorted [(left port, right port)]
-    (None for indirect) -> (left fields, right fields, session fields)"""
+    (None for indirect); acp = (left.all_connected_ports, right.all_connected_ports) as sets of names (direct only)
+    -> (left fields, right fields, session fields)
+
+    table key "acp" makes the handler a function of the peers' all_connected_ports ("all interconnections", the
+    names each peer uses for its own ends):
+      lmin / rmin    the processed group is the primary one iff it holds the lowest-numbered of the left / right
+                     peer's connected ports; the others get a different subnet
+      lname / rname  the subnet is numbered after the lowest-numbered connected port of the left / right peer"""
     left, right, sess = {}, {}, {}
     ln, rn = int(L["n"]), int(R["n"])
     if t.get("guard") == "lt" and not ln < rn:
         return left, right, sess               # "do the check inside the handler and return without modifications"
     plan = t.get("plan", 0)
-    pk = min(int(lp[2:]) for lp, _rp in pairs) if pairs else 0
+    pk = min(_pnum(lp) for lp, _rp in pairs) if pairs else 0
     third = 16 * ln + rn + (64 if "role" in L else 0)
     second = (100 if kind == "indirect" else 0) + (plan & 1)
+    mode = t.get("acp", "")
+    if mode and kind == "direct":
+        side = 0 if mode[0] == "l" else 1
+        own_all = min(_pnum(p) for p in acp[side])
+        if mode[1:] == "min":
+            if min(_pnum(pr[side]) for pr in pairs) != own_all:
+                third += 128
+        else:
+            second += 2 * (1 + own_all)
     left["addr"] = "10.%d.%d.%d/31" % (second, third, 2 * pk)
     right["addr"] = "10.%d.%d.%d/31" % (second, third, 2 * pk + 1)
     if plan == 2:                              # shares the left address of plan 0, own right address
@@ -380,7 +401,11 @@ def ref_sessions(topo, rules, dev):
                 groups = [list(all_pairs)] if rule.get("pp", "u") == "u" else [[p] for p in all_pairs]
                 for grp in groups:
                     lr_pairs = sorted((lp, rp) if local_is_left else (rp, lp) for lp, rp in grp)
-                    left, right, sess = eval_pair_handler("direct", rule["h"], m[0], m[1], lr_pairs)
+                    # what each peer must see as all_connected_ports: its own names of all links of this pair
+                    own_all = frozenset(lp for lp, _rp in all_pairs)
+                    nbr_all = frozenset(rp for _lp, rp in all_pairs)
+                    acp = (own_all, nbr_all) if local_is_left else (nbr_all, own_all)
+                    left, right, sess = eval_pair_handler("direct", rule["h"], m[0], m[1], lr_pairs, acp)
                     if not left and not right and not sess:
                         continue
                     left = merge_fields(left, sess, "session vs left peer")
